@@ -21,10 +21,13 @@ import (
 	"fmt"
 	"os"
 	"path/filepath"
+	"runtime/pprof"
 	"sync/atomic"
 
 	iec "github.com/nspcc-dev/neofs-node/internal/ec"
+	"github.com/nspcc-dev/neofs-node/pkg/local_object_storage/blobstor/fstree"
 	"github.com/nspcc-dev/neofs-node/pkg/local_object_storage/engine"
+	"github.com/nspcc-dev/neofs-node/pkg/local_object_storage/shard"
 	"github.com/nspcc-dev/neofs-node/pkg/services/policer"
 	"github.com/nspcc-dev/neofs-node/verif/lib/enumx"
 	"github.com/nspcc-dev/neofs-node/verif/lib/ev"
@@ -114,7 +117,7 @@ func why(c tcase) string {
 		return "payment-check-error"
 	case c.Unpaid < 0:
 		return "container-is-paid"
-	case c.Unpaid > c.Epoch:
+	case c.Unpaid > c.Epoch || (c.Path == "shard-history" && c.Unpaid > c.Epoch2):
 		return "unpaid-mark-newer-than-processed-epoch"
 	default:
 		return "unpaid-for-less-than-3-epochs"
@@ -182,30 +185,30 @@ type outcome struct {
 func (o outcome) discardedA() bool { return o.UnreadableA+o.RemovedA > 0 }
 func (o outcome) discardedB() bool { return o.UnreadableB+o.RemovedB > 0 }
 
-// observe reopens nothing: it inspects a live shardworld shard, then runs GC to quiescence and looks at the files.
-func observe(w *sw.World, o *outcome) error {
+// observe inspects a live shard: readability first, then GC to quiescence and a look at the blob files.
+func observe(sh *shard.Shard, fst *fstree.FSTree, o *outcome) error {
 	for _, l := range objsA {
-		if _, err := w.Sh.Get(sw.Addr("A", l), false); err != nil {
+		if _, err := sh.Get(sw.Addr("A", l), false); err != nil {
 			o.UnreadableA++
 		}
 	}
 	for _, l := range objsB {
-		if _, err := w.Sh.Get(sw.Addr("B", l), false); err != nil {
+		if _, err := sh.Get(sw.Addr("B", l), false); err != nil {
 			o.UnreadableB++
 		}
 	}
 	for i := 0; i < 3; i++ {
-		w.GCPass()
+		sh.VerifGCPass()
 	}
 	for _, l := range objsA {
-		if ok, err := w.FST.Exists(sw.Addr("A", l)); err != nil {
+		if ok, err := fst.Exists(sw.Addr("A", l)); err != nil {
 			return err
 		} else if !ok {
 			o.RemovedA++
 		}
 	}
 	for _, l := range objsB {
-		if ok, err := w.FST.Exists(sw.Addr("B", l)); err != nil {
+		if ok, err := fst.Exists(sw.Addr("B", l)); err != nil {
 			return err
 		} else if !ok {
 			o.RemovedB++
@@ -243,9 +246,9 @@ func run(c tcase) (outcome, error) {
 			w.HandleEpochEvent(uint64(c.Epoch2))
 		}
 		o.PayCalls = len(pay.Calls)
-		return o, observe(w, &o)
+		return o, observe(w.Sh, w.FST, &o)
 	case "engine", "policer":
-		opts, _, _, err := sw.ShardOptions(cfg)
+		opts, _, fst, err := sw.ShardOptions(cfg)
 		if err != nil {
 			return o, err
 		}
@@ -274,22 +277,29 @@ func run(c tcase) (outcome, error) {
 				p.VerifC47ProcessObject(ctx, a)
 			}
 		}
-		if err := e.Close(); err != nil {
-			return o, fmt.Errorf("engine close: %w", err)
+		// look at what is left through the engine's own shard object. Nothing below announces an
+		// epoch, so the observation itself cannot trigger a payment-based discard.
+		shs := e.VerifC47Shards()
+		if len(shs) != 1 {
+			_ = e.Close()
+			return o, fmt.Errorf("engine has %d shards", len(shs))
 		}
-		// look at what is left with a plain shard (payments disabled: observation must not discard anything itself)
-		w, err := sw.Open(sw.Config{Dir: dir, Epoch: ep})
-		if err != nil {
-			return o, err
+		err = observe(shs[0], fst, &o)
+		if cerr := e.Close(); err == nil && cerr != nil {
+			err = fmt.Errorf("engine close: %w", cerr)
 		}
-		defer w.Close()
-		return o, observe(w, &o)
+		return o, err
 	}
 	return o, fmt.Errorf("unknown path %q", c.Path)
 }
 
 func main() {
 	r := ev.Start("C47", ev.Exploration)
+	if pf := os.Getenv("C47_CPUPROFILE"); pf != "" {
+		f, _ := os.Create(pf)
+		pprof.StartCPUProfile(f)
+		defer pprof.StopCPUProfile()
+	}
 	scratch = sw.NewDir("verif-c47-")
 	defer os.RemoveAll(scratch)
 	buildImage(r)
@@ -372,5 +382,6 @@ func main() {
 	r.Assume("the payments stub returns (0, err) on a payment-check error like cmd/neofs-node's paymentChecker",
 		"the container source / policer network are table-driven fakes plugged through the exported interfaces; 'definitively absent' = error chain contains apistatus.ContainerNotFound",
 		"discard = an object of the container stops being readable via Shard.Get or its blob file disappears after 3 synchronous GC passes")
+	pprof.StopCPUProfile()
 	r.Finish()
 }
